@@ -25,7 +25,7 @@ def cfg_hook(rng, cfg, fam, i):
 
 def gen_cases(tier, seed):
     fams = ["exact-chain", "exact-dag", "approx-tail", "stripe-stress", "alias-stress", "buffer-stress", "exact-chain", "approx-tail", "cpu-mix", "lut-stress", "exact-chain-big", "shared-weights", "mixed-width", "strided-first"]
-    return campaign.gen_cases(tier, seed, 1, 330, 8000, families=fams, cfg_hook=cfg_hook, extra=[("shape-ops", 36, 800), ("approx-tail2", 24, 500)])
+    return campaign.gen_cases(tier, seed, 1, 330, 8000, families=fams, cfg_hook=cfg_hook, extra=[("shape-ops", 36, 800), ("approx-tail2", 24, 500), ("grouped-conv", 18, 400)])
 
 
 def rand_inputs(rng, sg, variant):
